@@ -111,13 +111,14 @@ def kernel_orders(chk, it, shape, kinds):
                 name = 'create_next_state/%s/order%s/%d-%d' % (tag, ''.join(map(str, order)), ka, kb)
                 sm = B.combine(it, sa, sb)
                 oka, okb = M.is_variant(oa.v, 'Ok'), M.is_variant(ob.v, 'Ok')
-                jobs.append(dict(name='COMM-1/accept/' + name, pc=list(sm.pc), claim=(oka == okb), inputs=inputs, kind='COMM',
+                jobs.append(dict(name='COMM-1/accept/' + name, pc=list(sm.pc), claim=(oka == okb), inputs=inputs, kind='COMM', replay=lambda mo: replay_orders(chk),
                                  bound=tag + ', arbitrary state / relevant-coin map'))
                 if 'Ok' in oa.v.payloads and 'Ok' in ob.v.payloads:
                     ua, ub = oa.v.payloads['Ok'][0], ob.v.payloads['Ok'][0]
                     for label, f in B.states_equal_parts(it, sm, ua, ub):
                         jobs.append(dict(name='COMM-1/%s/%s' % (label, name), pc=list(sm.pc) + [oka, okb], claim=f,
-                                         inputs=inputs, kind='COMM', bound=tag + ', arbitrary state / relevant-coin map'))
+                                         inputs=inputs, kind='COMM', replay=lambda mo: replay_orders(chk),
+                                         bound=tag + ', arbitrary state / relevant-coin map'))
                     covers.setdefault('both orders accepted', []).append((list(sm.pc), z3.And(oka, okb)))
                     a0 = txs[0].fields[1].fields[0]
                     txh1 = B.tx_hash_term(it, sm, txs[1])
@@ -163,11 +164,11 @@ def kernel_orders(chk, it, shape, kinds):
                                        describe=str(oa if isinstance(oa, Panic) else ob), bound=tag)
                         continue
                     oka, okb = M.is_variant(oa.v, 'Ok'), M.is_variant(ob.v, 'Ok')
-                    chk.obligation('COMM-1/accept/' + name, list(sm.pc), oka == okb, inputs, replay=None, kind='COMM', bound=tag)
+                    chk.obligation('COMM-1/accept/' + name, list(sm.pc), oka == okb, inputs, replay=lambda mo: replay_orders(chk), kind='COMM', bound=tag)
                     if 'Ok' in oa.v.payloads and 'Ok' in ob.v.payloads:
                         ma, mb = oa.v.payloads['Ok'][0].data, ob.v.payloads['Ok'][0].data
                         chk.obligation('COMM-1/same-map/' + name, list(sm.pc) + [oka, okb], B.map_extensional_eq(ma, mb),
-                                       inputs, replay=None, kind='COMM', bound=tag)
+                                       inputs, replay=lambda mo: replay_orders(chk), kind='COMM', bound=tag)
                     chk.sample({'kernel': kname, 'batch': tag, 'order': order})
 
 
@@ -220,3 +221,51 @@ def closure_purity(chk, it):
     x = z3.Bool('closure_purity')
     chk.obligation('STRUCT/parallel-closures-only-read-captures', [x == z3.BoolVal(not bad)], x, {}, replay=None,
                    kind='FRAME', bound='%d closures: %s' % (len(names), '; '.join(bad) or 'none writes'))
+
+
+def _coin(n, value, denom='MEL'):
+    return {'id': {'txhash': {'hex': ('%02x' % n) * 32}, 'index': 0}, 'covhash': {'covhash_of': 'true'}, 'value': str(value),
+            'denom': denom, 'adata': '', 'height': 0}
+
+
+def _tx(name, kind, ins, outs, fee=0, data=''):
+    return {'name': name, 'kind': kind, 'inputs': ins, 'fee': str(fee), 'covenants': ['true'], 'data': data,
+            'outputs': [{'covhash': {'covhash_of': 'true'}, 'value': str(v), 'denom': d, 'adata': a} for v, d, a in outs]}
+
+
+def replay_orders(chk):
+    """native scenarios in which order could matter: a dependent pair (b spends a's output), two transactions paying
+    fees and tips, a stake next to a spend -- each applied in both orders from the same state"""
+    base = {'kind': 'batch', 'network': 2, 'height': 1, 'fee_pool': '1000', 'tips': '5', 'fee_multiplier': '70000',
+            'dosc_speed': '1000000', 'probes': [], 'orders': [[0, 1], [1, 0]]}
+    raw = lambda n: {'txhash': {'hex': ('%02x' % n) * 32}, 'index': 0}
+    scs = []
+    scs.append(dict(base, coins=[_coin(0x11, 900000)], txs=[
+        _tx('a', 0, [raw(0x11)], [(500000, 'MEL', '')], fee=400000),
+        _tx('b', 0, [{'txhash': {'txhash_of': 'a'}, 'index': 0}], [(200000, 'MEL', '01')], fee=300000)]))
+    scs.append(dict(base, coins=[_coin(0x11, 900000), _coin(0x12, 800000)], txs=[
+        _tx('a', 0, [raw(0x11)], [(500000, 'MEL', '')], fee=400000),
+        _tx('b', 0, [raw(0x12)], [(100000, 'MEL', '02')], fee=700000)]))
+    scs.append(dict(base, coins=[_coin(0x11, 900000), _coin(0x13, 1000, 'SYM'), _coin(0x12, 800000)], txs=[
+        _tx('a', 0x10, [raw(0x13), raw(0x11)], [(1000, 'SYM', ''), (400000, 'MEL', '')], fee=500000,
+            data={'stakedoc': {'pubkey': '00' * 32, 'e_start': 1, 'e_post_end': 3, 'syms_staked': '1000'}}),
+        _tx('b', 0, [raw(0x12)], [(100000, 'MEL', '02')], fee=700000)]))
+    outs = harness.run_replay(scs, 'dev')
+    from props import scenario as SC
+    for sc, out in zip(scs, outs):
+        if 'error' in out:
+            raise Inconclusive('replay: ' + out['error'])
+        r0, r1 = out['runs'][0], out['runs'][1]
+        why = None
+        if r0.get('panicked') or r1.get('panicked'):
+            why = 'panic'
+        elif (r0['result'] == 'Ok') != (r1['result'] == 'Ok'):
+            why = 'order [a,b] -> %s, order [b,a] -> %s' % (r0['result'], r1['result'])
+        elif r0['result'] == 'Ok':
+            for f in ('n_coins', 'coin_supply', 'fee_pool', 'tips', 'dosc_speed', 'stakes', 'counts_detail'):
+                if r0['after'][f] != r1['after'][f]:
+                    why = 'both orders accepted but %s differs: %s vs %s' % (f, str(r0['after'][f])[:150], str(r1['after'][f])[:150])
+                    break
+        if why:
+            return True, sc, {'why': why}
+    return False, scs[0], {'all_scenarios_order_independent': True, 'results': [o['runs'][0]['result'] for o in outs]}
